@@ -255,25 +255,30 @@ class _AsyncioReadWriteLock(ReadWriteLock):
     def subsystem(self) -> str:
         return 'asyncio'
 
-    async def _acquire_read(self) -> bool:
+    async def _acquire_read(self) -> None:
+        # The read mutex is held while the first reader waits for the write
+        # mutex, so that later readers queue behind it instead of entering
+        # alongside an active writer. The counter is only incremented once
+        # the write mutex belongs to the readers, a cancelled waiter leaves
+        # no trace.
         async with self._read_lock:
+            if self._counter == 0:
+                await self._write_lock.acquire()
             self._counter += 1
-            return self._counter == 1
 
-    async def _release_read(self) -> bool:
-        async with self._read_lock:
-            self._counter -= 1
-            return self._counter == 0
+    def _release_read(self) -> None:
+        # Never suspends, so a reader can not be cancelled half-way out.
+        self._counter -= 1
+        if self._counter == 0:
+            self._write_lock.release()
 
     @asynccontextmanager
     async def read_lock(self) -> AsyncIterator[None]:
-        if await self._acquire_read():
-            await self._write_lock.acquire()
+        await self._acquire_read()
         try:
             yield
         finally:
-            if await self._release_read():
-                self._write_lock.release()
+            self._release_read()
 
     @asynccontextmanager
     async def write_lock(self) -> AsyncIterator[None]:
@@ -293,25 +298,25 @@ class _ThreadingReadWriteLock(ReadWriteLock):  # pragma: no cover
     def subsystem(self) -> str:
         return 'threading'
 
-    def _acquire_read(self) -> bool:
+    def _acquire_read(self) -> None:
         with self._read_lock:
+            if self._counter == 0:
+                self._write_lock.acquire()
             self._counter += 1
-            return self._counter == 1
 
-    def _release_read(self) -> bool:
+    def _release_read(self) -> None:
         with self._read_lock:
             self._counter -= 1
-            return self._counter == 0
+            if self._counter == 0:
+                self._write_lock.release()
 
     @asynccontextmanager
     async def read_lock(self) -> AsyncIterator[None]:
-        if self._acquire_read():
-            self._write_lock.acquire()
+        self._acquire_read()
         try:
             yield
         finally:
-            if self._release_read():
-                self._write_lock.release()
+            self._release_read()
 
     @asynccontextmanager
     async def write_lock(self) -> AsyncIterator[None]:
